@@ -201,7 +201,7 @@ def run_tds_switching(sc):
             ev.append(dict(e="tds_raised", text="%s: %s" % (type(ex).__name__, str(ex)[:120])))
             break
         rec = _conn_record(ss)
-        rec["t"] = float(ss.dae.t)
+        rec["t"] = "%.4f" % float(ss.dae.t)
         rec["tds_ok"] = ok
         ev.append(rec)
         if not ok:
